@@ -15,10 +15,13 @@
 //             R <generated> <queued> <active> <alive>          one per Stepper call
 //             S <track> <step> <field>=<hex> ...               one per recorded track step,
 //                                                              sorted by (track, step)
+//             Q <records whose action is the tracking cut (tracks that failed to initialise)>
 //             C <num_initializers> <num_vacancies> <num_secondaries> <slots not inactive>   at event end
 //             F <event_id> <done|aborted>
 // Primaries of an event are a pure function of (problem, event_id, nprim) so that
-// the same event can be asked for in any history.
+// the same event can be asked for in any history.  About a quarter of them start outside
+// the world: they fail to initialise, go through the errored path (tracking cut) and are
+// recorded and compared like every other track.
 #include <algorithm>
 #include <cstdint>
 #include <cstring>
@@ -214,6 +217,13 @@ std::vector<Primary> make_primaries(P& prob, int kind, unsigned event, unsigned 
             // inside or just outside the 10 cm aluminium box
             p.position = {-6 + 12 * g.uni(), -4 + 8 * g.uni(), -4 + 8 * g.uni()};
             p.direction = iso(g);
+            if (g.next() % 4 == 0 || event % 7 == 0)
+            {
+                // (events whose id is a multiple of 7 consist of such primaries only)
+                // a primary that FAILS to initialise (outside the +-500 cm world): it is flagged
+                // errored, killed by the tracking cut and leaves its energy as deposition in the slot
+                p.position = {(g.next() & 1 ? 1.0 : -1.0) * (600 + 50 * g.uni()), 10 * g.uni(), -10 * g.uni()};
+            }
         }
         else
         {
@@ -227,6 +237,11 @@ std::vector<Primary> make_primaries(P& prob, int kind, unsigned event, unsigned 
             Real3 d = iso(g);
             p.position = {r * d[0], r * d[1], r * d[2]};
             p.direction = iso(g);
+            if (g.next() % 5 == 0 || event % 7 == 0)
+            {
+                // outside the r = 100 cm world: fails to initialise
+                p.position = {150 + 10 * g.uni(), 0, 0};
+            }
         }
         CELER_VALIDATE(p.particle_id, << "particle not found");
         out.push_back(p);
@@ -327,6 +342,12 @@ int run(int kind, size_type slots, TrackOrder order, bool timing, bool checker, 
             ++cnt;
         }
         flush();
+        {
+            unsigned killed = 0;
+            for (auto const& x : v)
+                killed += (x.text.find("action=tracking-cut") != std::string::npos);
+            std::cout << "Q " << killed << '\n';  // tracks ended by the tracking cut (failed initialisation)
+        }
         {
             // hypotheses of reseed_rel, observed: host counters and statuses at the end of the event
             auto const& c = step.state().counters();
